@@ -117,6 +117,9 @@ def build(cfg):
         for t in cfg.get('assign_order', list(cfg['types'])):
             s.density[t] = _num(cfg['rho'][t], ns)
             s.diameter[t] = _num(cfg['diam'][t], ns)
+        for key, val in (cfg.get('sigma_override') or {}).items():      # assigning a diameter recomputes the contact distances
+            a, b = key.split('-')
+            s.diameter.sigma[a, b] = val
         return s
     return _build(cfg)
 
